@@ -129,6 +129,8 @@ def cmd_check(prop, tier, jobs):
                 verdict = "refuted"
             elif rec["unknown"] > 0 or r.get("unsupported") or r.get("errors"):
                 verdict = "undecided"
+            elif name.endswith(".noraise") and rec["instances"] == rec["unsat"] + rec["vacuous"]:
+                verdict = "discharged"  # no feasible path of the explored code raises
             elif rec["instances"] == 0 or rec["unsat"] == 0:
                 verdict = "vacuous"
             xf = [f for f in xc.get("fails", []) if f[0] == name]
@@ -159,7 +161,7 @@ def cmd_check(prop, tier, jobs):
         path = os.path.join("replays", prop, name.replace("/", "_") + ".json")
         json.dump({"property": prop, "obligation": name, "harness": h.name, "functions": r.get("functions"),
                    "confirmed_on_real_code": rp["confirmed"], "witness_source": rp["source"], "inputs": rp["inputs"],
-                   "solver": rec["models"], "path_instances": rec["instances"], "refuted_instances": rec["sat"],
+                   "solver": rec["models"], "notes": rec.get("notes"), "path_instances": rec["instances"], "refuted_instances": rec["sat"],
                    "replay_cmd": f".venv/bin/python -m pyvc.cli replay {path}"},
                   open(os.path.join(ROOT, path), "w"), indent=1, default=str)
         tail = "" if rp["confirmed"] else " no-failing-input-found"
